@@ -1,14 +1,16 @@
 //! C08 — collections are lazy, immutable and re-runnable; branches do not interfere.
 //!
-//! Real side: 1..5 REAL OS threads share one `Pipeline` and execute small programs (new source / derive /
-//! join / collect). A cooperative scheduler (installed through `verif_hooks::set_yield_callback`; every
+//! Real side: 1..5 REAL OS threads share one `Pipeline` and execute small programs (new source / derive:
+//! `map`, `filter`, `group_by_key`, `combine_values`, `combine_values_lifted`, `combine_globally` / join of
+//! the four kinds / collect in either mode / `set_metrics` / `take_metrics`). A cooperative scheduler (installed through `verif_hooks::set_yield_callback`; every
 //! `Pipeline` method yields right before taking the lock, and every operation yields once at its `begin`)
 //! lets exactly one thread run from one yield point to the next, following a *schedule* (list of thread
 //! ids). So an interleaving at lock granularity is replayable and can be ENUMERATED.
 //!
 //! Request  `GRAPH <n> <prog_0> … <prog_{n-1}> <schedule>`  (see lean/IbModel/Driver/D08.lean for the syntax)
-//! Answer   `n=<#nodes> N=<id>:<kind>,… E=<from>-<to>,… T=<per step: thread, lock site, #nodes.#edges after it> t0=<outcomes> …`
-//!          from the real `snapshot()`, the real lock-site trace, the real node ids and the real collect results.
+//! Answer   `n=<#nodes> N=<id>:<kind>,… E=<from>-<to>,… T=<per step: thread, lock site, #nodes.#edges after it> U=<user-function calls> t0=<outcomes> …`
+//!          from the real `snapshot()`, the real lock-site trace, the real call counters of every user closure /
+//!          `CombineFn::add_input`, the real node ids and the real collect results.
 //! The Lean model replays the same linearisation; the answers must be byte-identical.
 //!
 //! Request  `GINV <#nodes> <ids> <edges>`: a snapshot of the real graph after a FREE-RUNNING (no scheduler,
@@ -16,11 +18,18 @@
 //!
 //! Oracle (independent of the model, of snapshots, ids and the back-walk): every handle carries its
 //! creation-time lineage as a plain Rust expression tree (`Lin`); every collect must equal `eval(lin)`;
-//! every user closure has its own call counter whose final value must equal the number of rows the
-//! lineage evaluations of the collects that contain it feed to it (so: 0 calls from building; no calls
-//! from collects of other branches); node ids pairwise distinct, none lost; edges old→young, in-degree ≤ 1.
+//! every user function (map/filter closure, `CombineFn::add_input` of the per-key / lifted / global
+//! combiners) has its own call counter whose final value must equal the number of rows the lineage
+//! evaluations of the collects that contain it feed to it (so: 0 calls from building; no calls from
+//! collects of other branches; no second run of a barrier); node ids pairwise distinct, none lost; edges
+//! old→young, in-degree ≤ 1; `take_metrics` answers follow the order of the metrics critical sections.
+//!
+//! Small-scope blocks: (2a) every ordered pair of single operations, ALL interleavings; (2b) every pair of
+//! programs of up to 3 (quick: 2) operations over per-thread alphabets, one schedule per Mazurkiewicz trace
+//! under the dependence relation `dependent` (partial-order reduction, sleep sets); (2c) hand-picked pairs.
 
-use crate::ctx::{Ctx, guarded};
+use crate::ctx::{Ctx, Tier, guarded};
+use ironbeam::collection::{CombineFn, LiftableCombiner};
 use ironbeam::node::Node;
 use ironbeam::{PCollection, Pipeline, from_vec};
 use std::cell::RefCell;
@@ -37,12 +46,21 @@ enum Ref { Front(usize), Back(usize), Mine(usize) }
 #[derive(Clone, Copy, Debug, PartialEq)]
 enum F { Add(i64), Mul(i64), Rekey(i64), Drop(i64, i64) }
 
+#[derive(Clone, Copy, Debug, PartialEq)]
+enum JK { Inner, Left, Right, Full }
+
 #[derive(Clone, Debug, PartialEq)]
 enum Op {
     Source(Vec<(i64, i64)>),
-    Derive(Ref, F),
-    Join(Ref, Ref),
+    Derive(Ref, F),                     // map / filter, any element type
+    Group(Ref),                         // group_by_key                (k,v) -> (k,Vec v)
+    CombV(Ref, i64),                    // combine_values(sum+bias)    (k,v) -> (k,v)
+    CombL(Ref, i64),                    // combine_values_lifted(..)   (k,Vec v) -> (k,v)
+    CombG(Ref, i64, Option<usize>),     // combine_globally(.., fanout) (k,v) -> one (k,v)
+    Join(JK, Ref, Ref),
     Collect(Ref, Option<usize>), // None = collect_seq, Some(p) = collect_par(None, Some(p))
+    SetM,                               // Pipeline::set_metrics
+    TakeM,                              // Pipeline::take_metrics
 }
 
 fn enc_ref(r: Ref) -> String {
@@ -58,56 +76,138 @@ fn enc_op(op: &Op) -> String {
     match op {
         Op::Source(rows) => format!("S{}", rows.iter().map(|(k, v)| format!("{k}.{v}")).collect::<Vec<_>>().join("_")),
         Op::Derive(r, f) => format!("D{}/{}", enc_ref(*r), enc_f(*f)),
-        Op::Join(l, r) => format!("J{}/{}", enc_ref(*l), enc_ref(*r)),
+        Op::Group(r) => format!("G{}", enc_ref(*r)),
+        Op::CombV(r, b) => format!("V{}/{b}", enc_ref(*r)),
+        Op::CombL(r, b) => format!("L{}/{b}", enc_ref(*r)),
+        Op::CombG(r, b, fo) => format!("A{}/{b}/{}", enc_ref(*r), fo.map_or("n".to_string(), |x| x.to_string())),
+        Op::Join(k, l, r) => format!("J{}{}/{}", match k { JK::Inner => 'i', JK::Left => 'l', JK::Right => 'r', JK::Full => 'f' }, enc_ref(*l), enc_ref(*r)),
         Op::Collect(r, None) => format!("C{}/s", enc_ref(*r)),
         Op::Collect(r, Some(p)) => format!("C{}/p{p}", enc_ref(*r)),
+        Op::SetM => "M+".into(),
+        Op::TakeM => "M-".into(),
     }
 }
 fn enc_prog(p: &[Op]) -> String {
     if p.is_empty() { "-".into() } else { p.iter().map(enc_op).collect::<Vec<_>>().join(";") }
 }
-/// atomic steps of an operation when its handles resolve (begin + lock sites)
-fn op_steps(op: &Op) -> usize {
-    match op { Op::Source(_) => 2, Op::Derive(..) => 3, Op::Join(..) => 6, Op::Collect(..) => 4 }
+/// kinds of the atomic steps of an operation when its handles resolve: b = begin (harness), i = insert_node,
+/// I = insert_node after which the builder returns (handle published), c = connect (+ publication),
+/// s = snapshot, m/e = record_metrics_start/end, M/K = set/take_metrics
+fn op_kinds(op: &Op) -> &'static str {
+    match op {
+        Op::Source(_) => "bI",
+        Op::Derive(..) | Op::Group(_) | Op::CombV(..) | Op::CombL(..) | Op::CombG(..) => "bic",
+        Op::Join(..) => "bssiic",
+        Op::Collect(..) => "bmse",
+        Op::SetM => "bM",
+        Op::TakeM => "bK",
+    }
 }
+fn op_steps(op: &Op) -> usize { op_kinds(op).len() }
 fn prog_steps(p: &[Op]) -> usize { p.iter().map(op_steps).sum() }
+fn prog_kinds(p: &[Op]) -> Vec<u8> { p.iter().flat_map(|o| op_kinds(o).bytes()).collect() }
 
 // ---------------------------------------------------------------------------------------------
 // lineage expressions: the oracle's own notion of "what this collection is" (fixed at creation)
 
-type Row = (i64, i64, Option<i64>);
+#[derive(Clone, Debug, PartialEq)]
+enum Cell { Absent, Null, Val(i64), List(Vec<i64>) }
+type Row = (i64, Cell, Cell);
+
+impl Cell {
+    fn pv(&self) -> i64 { match self { Cell::Val(v) => *v, Cell::List(l) => l.iter().sum(), _ => 0 } }
+    fn mapv(&self, g: impl Fn(i64) -> i64) -> Cell {
+        match self { Cell::Val(v) => Cell::Val(g(*v)), Cell::List(l) => Cell::List(l.iter().map(|x| g(*x)).collect()), c => c.clone() }
+    }
+    fn vals(&self) -> Vec<i64> { match self { Cell::Val(v) => vec![*v], Cell::List(l) => l.clone(), _ => vec![] } }
+}
+
+/// user-function counters of one lineage node
+struct Cnt { actual: Arc<AtomicU64>, expected: AtomicU64 }
+impl Cnt { fn new() -> Cnt { Cnt { actual: Arc::new(AtomicU64::new(0)), expected: AtomicU64::new(0) } } }
 
 enum Lin {
     Src(Vec<(i64, i64)>),
-    Map { parent: Arc<Lin>, f: F, actual: Arc<AtomicU64>, expected: AtomicU64 },
-    Join(Arc<Lin>, Arc<Lin>),
+    Map { parent: Arc<Lin>, f: F, cnt: Cnt },
+    Group(Arc<Lin>),
+    CombV { parent: Arc<Lin>, bias: i64, cnt: Cnt }, // on pairs and (lifted) on groups: per key, sum of all values + bias
+    CombG { parent: Arc<Lin>, bias: i64, cnt: Cnt },
+    Join(JK, Arc<Lin>, Arc<Lin>),
 }
-
-fn apply_f(f: F, k: i64, v: i64) -> Option<(i64, i64)> {
-    match f {
-        F::Add(n) => Some((k, v + n)),
-        F::Mul(n) => Some((k, v * n)),
-        F::Rekey(m) => Some(((k + v).rem_euclid(m), v)),
-        F::Drop(m, r) => if v.rem_euclid(m) != r { Some((k, v)) } else { None },
+impl Lin {
+    fn cnt(&self) -> Option<(&Cnt, String)> {
+        match self {
+            Lin::Map { cnt, f, .. } => Some((cnt, format!("closure {f:?}"))),
+            Lin::CombV { cnt, bias, .. } => Some((cnt, format!("combine_values add_input (bias {bias})"))),
+            Lin::CombG { cnt, bias, .. } => Some((cnt, format!("combine_globally add_input (bias {bias})"))),
+            _ => None,
+        }
     }
 }
 
-/// plain-Rust evaluation of a lineage; `count` = also account the closure calls this evaluation implies
+/// the user function of map/filter, on the common row view (pv = the value, or the sum of a group)
+fn apply_f(f: F, r: &Row) -> Option<Row> {
+    let (k, v, w) = r;
+    match f {
+        F::Add(n) => Some((*k, v.mapv(|x| x + n), w.clone())),
+        F::Mul(n) => Some((*k, v.mapv(|x| x * n), w.clone())),
+        F::Rekey(m) => Some(((k + v.pv()).rem_euclid(m), v.clone(), w.clone())),
+        F::Drop(m, r) => if v.pv().rem_euclid(m) != r { Some((*k, v.clone(), w.clone())) } else { None },
+    }
+}
+
+fn keys_of(rows: &[Row]) -> Vec<i64> {
+    let mut ks: Vec<i64> = vec![];
+    for r in rows { if !ks.contains(&r.0) { ks.push(r.0); } }
+    ks
+}
+
+/// plain-Rust evaluation of a lineage; `count` = also account the user-function calls this evaluation implies
 fn eval(l: &Lin, count: bool) -> Vec<Row> {
     match l {
-        Lin::Src(rows) => rows.iter().map(|(k, v)| (*k, *v, None)).collect(),
-        Lin::Map { parent, f, expected, .. } => {
+        Lin::Src(rows) => rows.iter().map(|(k, v)| (*k, Cell::Val(*v), Cell::Absent)).collect(),
+        Lin::Map { parent, f, cnt } => {
             let input = eval(parent, count);
-            if count { expected.fetch_add(input.len() as u64, Ordering::SeqCst); }
-            input.into_iter().filter_map(|(k, v, w)| apply_f(*f, k, v).map(|(k2, v2)| (k2, v2, w))).collect()
+            if count { cnt.expected.fetch_add(input.len() as u64, Ordering::SeqCst); }
+            input.iter().filter_map(|r| apply_f(*f, r)).collect()
         }
-        Lin::Join(a, b) => {
+        Lin::Group(parent) => {
+            let input = eval(parent, count);
+            keys_of(&input).into_iter().map(|k| {
+                let vs: Vec<i64> = input.iter().filter(|r| r.0 == k).flat_map(|r| r.1.vals()).collect();
+                (k, Cell::List(vs), Cell::Absent)
+            }).collect()
+        }
+        Lin::CombV { parent, bias, cnt } => {
+            let input = eval(parent, count);
+            // add_input runs once per value (per pair, or per member of a group)
+            if count { cnt.expected.fetch_add(input.iter().map(|r| r.1.vals().len() as u64).sum(), Ordering::SeqCst); }
+            keys_of(&input).into_iter().map(|k| {
+                let s: i64 = input.iter().filter(|r| r.0 == k).map(|r| r.1.pv()).sum();
+                (k, Cell::Val(s + bias), Cell::Absent)
+            }).collect()
+        }
+        Lin::CombG { parent, bias, cnt } => {
+            let input = eval(parent, count);
+            if count { cnt.expected.fetch_add(input.len() as u64, Ordering::SeqCst); }
+            let sk: i64 = input.iter().map(|r| r.0).sum();
+            let sv: i64 = input.iter().map(|r| r.1.pv()).sum();
+            vec![(sk.rem_euclid(2), Cell::Val(sv + bias), Cell::Absent)]
+        }
+        Lin::Join(kind, a, b) => {
             let l = eval(a, count);
             let r = eval(b, count);
             let mut out = vec![];
-            for (k, v, _) in &l {
-                for (k2, v2, _) in &r {
-                    if k == k2 { out.push((*k, *v, Some(*v2))); }
+            for x in &l {
+                let mut hit = false;
+                for y in &r {
+                    if x.0 == y.0 { hit = true; out.push((x.0, x.1.clone(), y.1.clone())); }
+                }
+                if !hit && matches!(kind, JK::Left | JK::Full) { out.push((x.0, x.1.clone(), Cell::Null)); }
+            }
+            if matches!(kind, JK::Right | JK::Full) {
+                for y in &r {
+                    if !l.iter().any(|x| x.0 == y.0) { out.push((y.0, Cell::Null, y.1.clone())); }
                 }
             }
             out
@@ -115,29 +215,69 @@ fn eval(l: &Lin, count: bool) -> Vec<Row> {
     }
 }
 
-fn show_rows(mut rows: Vec<Row>) -> String {
+fn show_cell(c: &Cell) -> String {
+    match c {
+        Cell::Absent => String::new(),
+        Cell::Null => "n".into(),
+        Cell::Val(v) => v.to_string(),
+        Cell::List(l) => { let mut l = l.clone(); l.sort(); format!("g{}", l.iter().map(|x| x.to_string()).collect::<Vec<_>>().join("+")) }
+    }
+}
+/// canonical form: every row rendered, the rendered rows sorted bytewise
+fn show_rows(rows: Vec<Row>) -> String {
     if rows.is_empty() { return "-".into(); }
-    rows.sort_by_key(|(k, v, w)| (*k, *v, w.unwrap_or(0)));
-    rows.iter()
-        .map(|(k, v, w)| match w { None => format!("{k}.{v}"), Some(w) => format!("{k}.{v}.{w}") })
-        .collect::<Vec<_>>()
-        .join("_")
+    let mut v: Vec<String> = rows.iter().map(|(k, a, b)| match b {
+        Cell::Absent => format!("{k}.{}", show_cell(a)),
+        _ => format!("{k}.{}.{}", show_cell(a), show_cell(b)),
+    }).collect();
+    v.sort();
+    v.join("_")
 }
 
 // ---------------------------------------------------------------------------------------------
 // handles on the real pipeline
 
+type KV = (i64, i64);
+type JI = (i64, (i64, i64));
+type JL = (i64, (i64, Option<i64>));
+type JR = (i64, (Option<i64>, i64));
+type JF = (i64, (Option<i64>, Option<i64>));
+type GR = (i64, Vec<i64>);
+
+fn oc(x: Option<i64>) -> Cell { x.map_or(Cell::Null, Cell::Val) }
+fn co(c: &Cell) -> Option<i64> { match c { Cell::Val(v) => Some(*v), _ => None } }
+
+/// the element types of the real collections, seen as the oracle's rows
+trait RowT: Clone + Send + Sync + 'static {
+    fn to_row(&self) -> Row;
+    fn from_row(r: &Row) -> Self;
+}
+impl RowT for KV { fn to_row(&self) -> Row { (self.0, Cell::Val(self.1), Cell::Absent) } fn from_row(r: &Row) -> Self { (r.0, r.1.pv()) } }
+impl RowT for JI { fn to_row(&self) -> Row { (self.0, Cell::Val(self.1.0), Cell::Val(self.1.1)) } fn from_row(r: &Row) -> Self { (r.0, (r.1.pv(), r.2.pv())) } }
+impl RowT for JL { fn to_row(&self) -> Row { (self.0, Cell::Val(self.1.0), oc(self.1.1)) } fn from_row(r: &Row) -> Self { (r.0, (r.1.pv(), co(&r.2))) } }
+impl RowT for JR { fn to_row(&self) -> Row { (self.0, oc(self.1.0), Cell::Val(self.1.1)) } fn from_row(r: &Row) -> Self { (r.0, (co(&r.1), r.2.pv())) } }
+impl RowT for JF { fn to_row(&self) -> Row { (self.0, oc(self.1.0), oc(self.1.1)) } fn from_row(r: &Row) -> Self { (r.0, (co(&r.1), co(&r.2))) } }
+impl RowT for GR { fn to_row(&self) -> Row { (self.0, Cell::List(self.1.clone()), Cell::Absent) } fn from_row(r: &Row) -> Self { (r.0, r.1.vals()) } }
+
 #[derive(Clone)]
-enum Coll { KV(PCollection<(i64, i64)>), J(PCollection<(i64, (i64, i64))>) }
+enum Coll { KV(PCollection<KV>), JI(PCollection<JI>), JL(PCollection<JL>), JR(PCollection<JR>), JF(PCollection<JF>), G(PCollection<GR>) }
+
+macro_rules! each_coll {
+    ($coll:expr, $c:ident => $body:expr) => {
+        match $coll {
+            Coll::KV($c) => $body, Coll::JI($c) => $body, Coll::JL($c) => $body,
+            Coll::JR($c) => $body, Coll::JF($c) => $body, Coll::G($c) => $body,
+        }
+    };
+}
 
 #[derive(Clone)]
 struct Handle { coll: Coll, lin: Arc<Lin>, inserted: usize }
 
 impl Handle {
-    fn id(&self) -> u64 {
-        match &self.coll { Coll::KV(c) => c.node_id().raw(), Coll::J(c) => c.node_id().raw() }
-    }
-    fn is_kv(&self) -> bool { matches!(self.coll, Coll::KV(_)) }
+    fn id(&self) -> u64 { each_coll!(&self.coll, c => c.node_id().raw()) }
+    /// element-type class: 0 = (k,v), 1 = join result, 2 = grouped
+    fn class(&self) -> usize { match self.coll { Coll::KV(_) => 0, Coll::G(_) => 2, _ => 1 } }
 }
 
 fn pick<T: Clone>(l: &[T], k: usize) -> Option<T> {
@@ -153,21 +293,22 @@ fn resolve(pool: &[Handle], own: &[Handle], r: Ref) -> Option<Handle> {
         Ref::Mine(k) => pick_back(own, k).or_else(|| pick_back(pool, k)),
     }
 }
-fn resolve_kv(pool: &[Handle], own: &[Handle], r: Ref) -> Option<Handle> {
-    let p: Vec<Handle> = pool.iter().filter(|h| h.is_kv()).cloned().collect();
-    let o: Vec<Handle> = own.iter().filter(|h| h.is_kv()).cloned().collect();
+/// a typed argument is resolved among the handles of the required element-type class
+fn resolve_cls(pool: &[Handle], own: &[Handle], class: usize, r: Ref) -> Option<Handle> {
+    let p: Vec<Handle> = pool.iter().filter(|h| h.class() == class).cloned().collect();
+    let o: Vec<Handle> = own.iter().filter(|h| h.class() == class).cloned().collect();
     resolve(&p, &o, r)
 }
 
 struct World {
     pipeline: Pipeline,
     pool: Mutex<Vec<Handle>>,
-    /// every closure created: (actual counter, lineage node holding the expected counter)
+    /// every lineage node that holds a user function (closure / CombineFn) with its call counters
     closures: Mutex<Vec<Arc<Lin>>>,
 }
 
 #[derive(Clone, Debug)]
-enum Outcome { Built(u64), Collected(u64, String), Skipped, Panicked }
+enum Outcome { Built(u64), Collected(u64, String), Skipped, Panicked, MSet, MTaken(bool) }
 
 fn show_outcome(o: &Outcome) -> String {
     match o {
@@ -175,47 +316,57 @@ fn show_outcome(o: &Outcome) -> String {
         Outcome::Collected(x, r) => format!("C{x}:{r}"),
         Outcome::Skipped => "K".into(),
         Outcome::Panicked => "P".into(),
+        Outcome::MSet => "M".into(),
+        Outcome::MTaken(b) => if *b { "M1".into() } else { "M0".into() },
     }
+}
+
+/// user combiners (their `add_input` is counted as the user-function call)
+struct SumC { bias: i64, calls: Arc<AtomicU64> }
+impl CombineFn<i64, i64, i64> for SumC {
+    fn create(&self) -> i64 { 0 }
+    fn add_input(&self, acc: &mut i64, v: i64) { self.calls.fetch_add(1, Ordering::SeqCst); *acc += v; }
+    fn merge(&self, acc: &mut i64, other: i64) { *acc += other; }
+    fn finish(&self, acc: i64) -> i64 { acc + self.bias }
+}
+impl LiftableCombiner<i64, i64, i64> for SumC {}
+struct SumKV { bias: i64, calls: Arc<AtomicU64> }
+impl CombineFn<KV, KV, KV> for SumKV {
+    fn create(&self) -> KV { (0, 0) }
+    fn add_input(&self, acc: &mut KV, v: KV) { self.calls.fetch_add(1, Ordering::SeqCst); acc.0 += v.0; acc.1 += v.1; }
+    fn merge(&self, acc: &mut KV, other: KV) { acc.0 += other.0; acc.1 += other.1; }
+    fn finish(&self, acc: KV) -> KV { (acc.0.rem_euclid(2), acc.1 + self.bias) }
 }
 
 /// the REAL builder / collect calls
-fn derive_real(h: &Handle, f: F, actual: Arc<AtomicU64>) -> Coll {
-    match &h.coll {
-        Coll::KV(c) => match f {
-            F::Drop(..) => Coll::KV(c.clone().filter(move |(k, v): &(i64, i64)| {
-                actual.fetch_add(1, Ordering::SeqCst);
-                apply_f(f, *k, *v).is_some()
-            })),
-            _ => Coll::KV(c.clone().map(move |(k, v): &(i64, i64)| {
-                actual.fetch_add(1, Ordering::SeqCst);
-                apply_f(f, *k, *v).unwrap()
-            })),
-        },
-        Coll::J(c) => match f {
-            F::Drop(..) => Coll::J(c.clone().filter(move |(k, (v, _)): &(i64, (i64, i64))| {
-                actual.fetch_add(1, Ordering::SeqCst);
-                apply_f(f, *k, *v).is_some()
-            })),
-            _ => Coll::J(c.clone().map(move |(k, (v, w)): &(i64, (i64, i64))| {
-                actual.fetch_add(1, Ordering::SeqCst);
-                let (k2, v2) = apply_f(f, *k, *v).unwrap();
-                (k2, (v2, *w))
-            })),
-        },
+fn derive_t<T: RowT>(c: &PCollection<T>, f: F, actual: Arc<AtomicU64>) -> PCollection<T> {
+    match f {
+        F::Drop(..) => c.clone().filter(move |x: &T| {
+            actual.fetch_add(1, Ordering::SeqCst);
+            apply_f(f, &x.to_row()).is_some()
+        }),
+        _ => c.clone().map(move |x: &T| {
+            actual.fetch_add(1, Ordering::SeqCst);
+            T::from_row(&apply_f(f, &x.to_row()).unwrap())
+        }),
     }
 }
-
-fn collect_real(h: &Handle, mode: Option<usize>) -> Result<Vec<Row>, String> {
+fn derive_real(h: &Handle, f: F, actual: Arc<AtomicU64>) -> Coll {
     match &h.coll {
-        Coll::KV(c) => {
-            let r = match mode { None => c.clone().collect_seq(), Some(p) => c.clone().collect_par(None, Some(p)) };
-            r.map(|v| v.into_iter().map(|(k, v)| (k, v, None)).collect()).map_err(|e| format!("{e:#}"))
-        }
-        Coll::J(c) => {
-            let r = match mode { None => c.clone().collect_seq(), Some(p) => c.clone().collect_par(None, Some(p)) };
-            r.map(|v| v.into_iter().map(|(k, (v, w))| (k, v, Some(w))).collect()).map_err(|e| format!("{e:#}"))
-        }
+        Coll::KV(c) => Coll::KV(derive_t(c, f, actual)),
+        Coll::JI(c) => Coll::JI(derive_t(c, f, actual)),
+        Coll::JL(c) => Coll::JL(derive_t(c, f, actual)),
+        Coll::JR(c) => Coll::JR(derive_t(c, f, actual)),
+        Coll::JF(c) => Coll::JF(derive_t(c, f, actual)),
+        Coll::G(c) => Coll::G(derive_t(c, f, actual)),
     }
+}
+fn collect_t<T: RowT>(c: &PCollection<T>, mode: Option<usize>) -> Result<Vec<Row>, String> {
+    let r = match mode { None => c.clone().collect_seq(), Some(p) => c.clone().collect_par(None, Some(p)) };
+    r.map(|v| v.iter().map(RowT::to_row).collect()).map_err(|e| format!("{e:#}"))
+}
+fn collect_real(h: &Handle, mode: Option<usize>) -> Result<Vec<Row>, String> {
+    each_coll!(&h.coll, c => collect_t(c, mode))
 }
 
 /// what one collect observed vs. what its creation-time lineage says
@@ -230,6 +381,14 @@ fn exec_op(w: &World, own: &mut Vec<Handle>, op: &Op, tid: usize, obs: &Mutex<Ve
         own.push(h);
         Outcome::Built(id)
     };
+    // a derive whose node holds a user function: register the lineage node (with its counters), build for real
+    let built = |lin: Arc<Lin>, with_fn: bool, mk: &dyn Fn() -> Coll, own: &mut Vec<Handle>| {
+        if with_fn { w.closures.lock().unwrap().push(lin.clone()); }
+        match guarded(|| mk()) {
+            Ok(coll) => publish(Handle { coll, lin, inserted: 1 }, own),
+            Err(_) => Outcome::Panicked,
+        }
+    };
     match op {
         Op::Source(rows) => {
             let rows2 = rows.clone();
@@ -241,22 +400,53 @@ fn exec_op(w: &World, own: &mut Vec<Handle>, op: &Op, tid: usize, obs: &Mutex<Ve
         }
         Op::Derive(r, f) => {
             let Some(h) = resolve(&pool_now, own, *r) else { return Outcome::Skipped };
-            let actual = Arc::new(AtomicU64::new(0));
-            let lin = Arc::new(Lin::Map { parent: h.lin.clone(), f: *f, actual: actual.clone(), expected: AtomicU64::new(0) });
-            w.closures.lock().unwrap().push(lin.clone());
-            let f2 = *f;
-            match guarded(|| derive_real(&h, f2, actual)) {
-                Ok(coll) => publish(Handle { coll, lin, inserted: 1 }, own),
-                Err(_) => Outcome::Panicked,
-            }
+            let cnt = Cnt::new();
+            let actual = cnt.actual.clone();
+            let lin = Arc::new(Lin::Map { parent: h.lin.clone(), f: *f, cnt });
+            built(lin, true, &|| derive_real(&h, *f, actual.clone()), own)
         }
-        Op::Join(l, r) => {
-            let (Some(a), Some(b)) = (resolve_kv(&pool_now, own, *l), resolve_kv(&pool_now, own, *r)) else {
+        Op::Group(r) => {
+            let Some(h) = resolve_cls(&pool_now, own, 0, *r) else { return Outcome::Skipped };
+            let Coll::KV(c) = &h.coll else { return Outcome::Skipped };
+            built(Arc::new(Lin::Group(h.lin.clone())), false, &|| Coll::G(c.clone().group_by_key()), own)
+        }
+        Op::CombV(r, bias) => {
+            let Some(h) = resolve_cls(&pool_now, own, 0, *r) else { return Outcome::Skipped };
+            let Coll::KV(c) = &h.coll else { return Outcome::Skipped };
+            let cnt = Cnt::new();
+            let actual = cnt.actual.clone();
+            let lin = Arc::new(Lin::CombV { parent: h.lin.clone(), bias: *bias, cnt });
+            built(lin, true, &|| Coll::KV(c.clone().combine_values(SumC { bias: *bias, calls: actual.clone() })), own)
+        }
+        Op::CombL(r, bias) => {
+            let Some(h) = resolve_cls(&pool_now, own, 2, *r) else { return Outcome::Skipped };
+            let Coll::G(c) = &h.coll else { return Outcome::Skipped };
+            let cnt = Cnt::new();
+            let actual = cnt.actual.clone();
+            let lin = Arc::new(Lin::CombV { parent: h.lin.clone(), bias: *bias, cnt });
+            built(lin, true, &|| Coll::KV(c.clone().combine_values_lifted(SumC { bias: *bias, calls: actual.clone() })), own)
+        }
+        Op::CombG(r, bias, fanout) => {
+            let Some(h) = resolve_cls(&pool_now, own, 0, *r) else { return Outcome::Skipped };
+            let Coll::KV(c) = &h.coll else { return Outcome::Skipped };
+            let cnt = Cnt::new();
+            let actual = cnt.actual.clone();
+            let lin = Arc::new(Lin::CombG { parent: h.lin.clone(), bias: *bias, cnt });
+            built(lin, true, &|| Coll::KV(c.clone().combine_globally(SumKV { bias: *bias, calls: actual.clone() }, *fanout)), own)
+        }
+        Op::Join(kind, l, r) => {
+            let (Some(a), Some(b)) = (resolve_cls(&pool_now, own, 0, *l), resolve_cls(&pool_now, own, 0, *r)) else {
                 return Outcome::Skipped;
             };
             let (Coll::KV(ca), Coll::KV(cb)) = (&a.coll, &b.coll) else { return Outcome::Skipped };
-            match guarded(|| ca.join_inner(cb)) {
-                Ok(c) => publish(Handle { coll: Coll::J(c), lin: Arc::new(Lin::Join(a.lin.clone(), b.lin.clone())), inserted: 2 }, own),
+            let made = guarded(|| match kind {
+                JK::Inner => Coll::JI(ca.join_inner(cb)),
+                JK::Left => Coll::JL(ca.join_left(cb)),
+                JK::Right => Coll::JR(ca.join_right(cb)),
+                JK::Full => Coll::JF(ca.join_full(cb)),
+            });
+            match made {
+                Ok(coll) => publish(Handle { coll, lin: Arc::new(Lin::Join(*kind, a.lin.clone(), b.lin.clone())), inserted: 2 }, own),
                 Err(_) => Outcome::Panicked,
             }
         }
@@ -267,10 +457,24 @@ fn exec_op(w: &World, own: &mut Vec<Handle>, op: &Op, tid: usize, obs: &Mutex<Ve
                 Ok(Err(e)) => format!("ERR-{}", e.split_whitespace().take(3).collect::<Vec<_>>().join("-")),
                 Err(_) => "PANIC".to_string(),
             };
-            // the oracle's value: the creation-time lineage alone (also accounts the closure calls it implies)
+            // the oracle's value: the creation-time lineage alone (also accounts the user-function calls it implies)
             let want = show_rows(eval(&h.lin, true));
             obs.lock().unwrap().push(CollectObs { tid, node: h.id(), real: real.clone(), want });
             Outcome::Collected(h.id(), real)
+        }
+        Op::SetM => {
+            let p = w.pipeline.clone();
+            match guarded(move || p.set_metrics(ironbeam::metrics::MetricsCollector::new())) {
+                Ok(()) => Outcome::MSet,
+                Err(_) => Outcome::Panicked,
+            }
+        }
+        Op::TakeM => {
+            let p = w.pipeline.clone();
+            match guarded(move || p.take_metrics().is_some()) {
+                Ok(b) => Outcome::MTaken(b),
+                Err(_) => Outcome::Panicked,
+            }
         }
     }
 }
@@ -344,6 +548,8 @@ fn site_code(s: &str) -> char {
         "pipeline:snapshot" => 's',
         "pipeline:record_metrics_start" => 'm',
         "pipeline:record_metrics_end" => 'e',
+        "pipeline:set_metrics" => 'M',
+        "pipeline:take_metrics" => 'K',
         _ => '?',
     }
 }
@@ -360,10 +566,9 @@ struct HistoryResult {
 
 /// run `progs` on fresh real threads sharing a fresh pipeline; `plan = Some(schedule)`: cooperative,
 /// `None`: free-running (truly concurrent, started together)
-fn run_history(progs: &[Vec<Op>], plan: Option<&[usize]>, with_metrics: bool) -> HistoryResult {
+fn run_history(progs: &[Vec<Op>], plan: Option<&[usize]>) -> HistoryResult {
     let n = progs.len();
     let world = Arc::new(World { pipeline: Pipeline::default(), pool: Mutex::new(vec![]), closures: Mutex::new(vec![]) });
-    if with_metrics { world.pipeline.set_metrics(ironbeam::metrics::MetricsCollector::new()); }
     let sched = Sched::new(n);
     let obs = Arc::new(Mutex::new(Vec::<CollectObs>::new()));
     let outs = Arc::new(Mutex::new(vec![Vec::<Outcome>::new(); n]));
@@ -399,7 +604,10 @@ fn snap(p: &Pipeline) -> Snap {
     let (nodes, edges) = p.snapshot();
     let mut v: Vec<(u64, char)> = nodes
         .iter()
-        .map(|(id, n)| (id.raw(), match n { Node::Source { .. } => 'S', Node::Stateless(_) => 'T', Node::CoGroup { .. } => 'G', _ => 'O' }))
+        .map(|(id, n)| (id.raw(), match n {
+            Node::Source { .. } => 'S', Node::Stateless(_) => 'T', Node::CoGroup { .. } => 'G',
+            Node::GroupByKey { .. } => 'K', Node::CombineValues { .. } => 'V', Node::CombineGlobal { .. } => 'A', _ => 'O',
+        }))
         .collect();
     v.sort();
     Snap { ids: v.iter().map(|x| x.0).collect(), kinds: v.iter().map(|x| x.1).collect(), edges: edges.iter().map(|(a, b)| (a.raw(), b.raw())).collect() }
@@ -453,15 +661,16 @@ fn check_oracle(cx: &mut Ctx, i: usize, res: &HistoryResult, s: &Snap) {
             break;
         }
     }
-    // laziness / no interference: each closure was called exactly as often as the collects containing it imply
+    // laziness / no interference: each user function (closure, CombineFn::add_input) was called exactly as
+    // often as the collects containing it imply
     let mut total_calls = 0;
     for l in res.world.closures.lock().unwrap().iter() {
-        if let Lin::Map { actual, expected, f, .. } = &**l {
-            let (a, e) = (actual.load(Ordering::SeqCst), expected.load(Ordering::SeqCst));
+        if let Some((cnt, what)) = l.cnt() {
+            let (a, e) = (cnt.actual.load(Ordering::SeqCst), cnt.expected.load(Ordering::SeqCst));
             total_calls += a;
             if a != e {
                 let sig = if res.obs.is_empty() { "user-code-ran-while-building" } else { "closure-calls-differ-from-lineage" };
-                cx.oracle_fail(i, sig, format!("closure {f:?}: called {a} times, its collects imply {e}"));
+                cx.oracle_fail(i, sig, format!("{what}: called {a} times, its collects imply {e}"));
                 break;
             }
         }
@@ -470,10 +679,12 @@ fn check_oracle(cx: &mut Ctx, i: usize, res: &HistoryResult, s: &Snap) {
     cx.count_n("closure calls observed", total_calls);
 }
 
+fn total_calls(res: &HistoryResult) -> u64 {
+    res.world.closures.lock().unwrap().iter().filter_map(|l| l.cnt().map(|(c, _)| c.actual.load(Ordering::SeqCst))).sum()
+}
+
 fn one_scheduled(cx: &mut Ctx, progs: &[Vec<Op>], plan: &[usize], tag: &str) {
-    let with_metrics = tag == "random" && plan.len() % 3 == 0;
-    if with_metrics { cx.count("random:pipeline has a metrics collector"); }
-    let res = run_history(progs, Some(plan), with_metrics);
+    let res = run_history(progs, Some(plan));
     let n = progs.len();
     let Some(trace) = res.trace.as_ref() else {
         let req = format!("GRAPH {n} {} {}", progs.iter().map(|p| enc_prog(p)).collect::<Vec<_>>().join(" "),
@@ -487,10 +698,11 @@ fn one_scheduled(cx: &mut Ctx, progs: &[Vec<Op>], plan: &[usize], tag: &str) {
     let trace_s: String = if trace.is_empty() { "-".into() } else { trace.iter().map(|st| format!("{}{}{}.{}", st.tid, site_code(st.site), st.nodes, st.edges)).collect() };
     let req = format!("GRAPH {n} {} {sched_s}", progs.iter().map(|p| enc_prog(p)).collect::<Vec<_>>().join(" "));
     let mut real = format!(
-        "n={} N={} E={} T={trace_s}",
+        "n={} N={} E={} T={trace_s} U={}",
         s.ids.len(),
         dash(s.ids.iter().zip(&s.kinds).map(|(i, k)| format!("{i}:{k}")).collect()),
-        dash(s.edges.iter().map(|(a, b)| format!("{a}-{b}")).collect())
+        dash(s.edges.iter().map(|(a, b)| format!("{a}-{b}")).collect()),
+        total_calls(&res)
     );
     for (t, o) in res.outs.iter().enumerate() {
         real.push_str(&format!(" t{t}={}", dash(o.iter().map(show_outcome).collect())));
@@ -504,10 +716,24 @@ fn one_scheduled(cx: &mut Ctx, progs: &[Vec<Op>], plan: &[usize], tag: &str) {
     for w in trace.windows(2) { if w[0].tid != w[1].tid { switches += 1; } }
     cx.count_n(&format!("{tag}:context switches"), switches);
     check_oracle(cx, i, &res, &s);
+    // set/take_metrics are linearisable: replaying the real lock-site trace, every take_metrics returns
+    // Some exactly when a set_metrics was the last metrics write before it
+    let mut has = false;
+    let mut expect: Vec<Vec<bool>> = vec![vec![]; n];
+    for st in trace {
+        match site_code(st.site) { 'M' => has = true, 'K' => { expect[st.tid].push(has); has = false; } _ => {} }
+    }
+    for (t, o) in res.outs.iter().enumerate() {
+        let got: Vec<bool> = o.iter().filter_map(|x| if let Outcome::MTaken(b) = x { Some(*b) } else { None }).collect();
+        if got != expect[t] {
+            cx.oracle_fail(i, "take-metrics-not-linearisable", format!("thread {t}: take_metrics returned Some = {got:?}, the order of the critical sections implies {:?}", expect[t]));
+            break;
+        }
+    }
 }
 
 fn one_free(cx: &mut Ctx, progs: &[Vec<Op>]) {
-    let res = run_history(progs, None, false);
+    let res = run_history(progs, None);
     let s = snap(&res.world.pipeline);
     let mut inserts = 0usize;
     for h in res.world.pool.lock().unwrap().iter() { inserts += h.inserted; }
@@ -540,11 +766,17 @@ fn gen_f(cx: &mut Ctx) -> F {
         _ => { let m = cx.rng.range(2, 3); F::Drop(m, cx.rng.range(0, m - 1)) }
     }
 }
+fn gen_jk(cx: &mut Ctx) -> JK { *cx.rng.pick(&[JK::Inner, JK::Left, JK::Right, JK::Full]) }
 fn gen_op(cx: &mut Ctx) -> Op {
-    match cx.rng.below(10) {
-        0 => Op::Source(gen_rows(cx)),
-        1 | 2 | 3 => Op::Derive(gen_ref(cx), gen_f(cx)),
-        4 | 5 => Op::Join(gen_ref(cx), gen_ref(cx)),
+    match cx.rng.below(20) {
+        0 | 1 => Op::Source(gen_rows(cx)),
+        2..=5 => Op::Derive(gen_ref(cx), gen_f(cx)),
+        6 => Op::Group(gen_ref(cx)),
+        7 | 8 => Op::CombV(gen_ref(cx), cx.rng.range(-1, 2)),
+        9 => Op::CombL(gen_ref(cx), cx.rng.range(-1, 2)),
+        10 => { let r = gen_ref(cx); let b = cx.rng.range(-1, 2); Op::CombG(r, b, *cx.rng.pick(&[None, Some(0), Some(1), Some(2), Some(3)])) }
+        11..=13 => { let k = gen_jk(cx); Op::Join(k, gen_ref(cx), gen_ref(cx)) }
+        14 => if cx.rng.chance(1, 2) { Op::SetM } else { Op::TakeM },
         _ => { let r = gen_ref(cx); let m = if cx.rng.chance(1, 3) { Some(1 + cx.rng.below(3)) } else { None }; Op::Collect(r, m) }
     }
 }
@@ -567,12 +799,75 @@ fn binom(n: usize, k: usize) -> usize {
     r
 }
 
+/// DEPENDENCE of two atomic steps of different threads, from what each critical section reads/writes:
+/// insert_node R/W next_id + W nodes; connect W edges; snapshot R nodes + edges; record_metrics_* R metrics;
+/// set/take_metrics W metrics; `begin` (harness) R pool; a builder's last step (I, c) W pool (publication).
+/// Two steps that are not dependent commute: swapping them when adjacent gives the same final state and the
+/// same results (every ordered pair of operations — hence of step kinds — is also run under ALL
+/// interleavings in the 1x1 block, where that is observed rather than assumed).
+fn dependent(x: u8, y: u8) -> bool {
+    let ins = |c: u8| c == b'i' || c == b'I';
+    let publ = |c: u8| c == b'I' || c == b'c';
+    let met_w = |c: u8| c == b'M' || c == b'K';
+    let met = |c: u8| met_w(c) || c == b'm' || c == b'e';
+    (ins(x) && ins(y))
+        || (ins(x) && y == b's') || (x == b's' && ins(y))
+        || (x == b'c' && y == b'c')
+        || (x == b'c' && y == b's') || (x == b's' && y == b'c')
+        || (publ(x) && publ(y))
+        || (publ(x) && y == b'b') || (x == b'b' && publ(y))
+        || (met_w(x) && met(y)) || (met(x) && met_w(y))
+}
+
+/// one schedule per Mazurkiewicz trace of two threads whose step kinds are `a` and `b` (sleep-set
+/// enumeration: a complete schedule is emitted iff no equivalent one was emitted before), after `pre` steps of thread 0
+fn trace_representatives(pre: usize, a: &[u8], b: &[u8]) -> Vec<Vec<usize>> {
+    fn go(a: &[u8], b: &[u8], i: usize, j: usize, sleep: [bool; 2], cur: &mut Vec<usize>, out: &mut Vec<Vec<usize>>) {
+        if i == a.len() && j == b.len() { out.push(cur.clone()); return; }
+        let next = |t: usize| -> Option<u8> { if t == 0 { a.get(i).copied() } else { b.get(j).copied() } };
+        let mut done = [false; 2];
+        for t in 0..2 {
+            let Some(st) = next(t) else { continue };
+            if sleep[t] { continue; }
+            let mut ns = [false; 2];
+            for u in 0..2 {
+                if u == t || !(sleep[u] || done[u]) { continue; }
+                if let Some(su) = next(u) { if !dependent(st, su) { ns[u] = true; } }
+            }
+            cur.push(t + 1);
+            go(a, b, i + (t == 0) as usize, j + (t == 1) as usize, ns, cur, out);
+            cur.pop();
+            done[t] = true;
+        }
+    }
+    let mut out = vec![];
+    let mut cur = vec![0; pre];
+    go(a, b, 0, 0, [false; 2], &mut cur, &mut out);
+    out
+}
+
+/// all programs of 1..=max operations over `alpha`
+fn programs(alpha: &[Op], max: usize) -> Vec<Vec<Op>> {
+    let mut out: Vec<Vec<Op>> = vec![];
+    let mut layer: Vec<Vec<Op>> = vec![vec![]];
+    for _ in 0..max {
+        let mut next = vec![];
+        for p in &layer { for o in alpha { let mut q = p.clone(); q.push(o.clone()); next.push(q); } }
+        out.extend(next.iter().cloned());
+        layer = next;
+    }
+    out
+}
+
 fn src(rows: &[(i64, i64)]) -> Op { Op::Source(rows.to_vec()) }
 
 pub fn run(cx: &mut Ctx) {
     ironbeam::verif_hooks::set_yield_callback(Some(Arc::new(|site| yield_here(site))));
-    let base = vec![(0i64, 1i64), (1, 2), (0, 3), (1, 4)];
-    let prefix = vec![src(&base), Op::Derive(Ref::Front(0), F::Add(1))];
+    let deep = cx.tier != Tier::Quick;
+    let base = vec![(0i64, 1i64), (1, 2), (0, 3), (1, 4), (2, 5), (2, 6)];
+    // pool after the prefix: 0 = source (k,v) with keys 0,1,2 (two rows each), 1 = map of it that re-keys into {0,1}
+    // (so key 2 is unmatched, twice, in every join of the two), 2 = group_by_key of the source (k,Vec v)
+    let prefix = vec![src(&base), Op::Derive(Ref::Front(0), F::Rekey(2)), Op::Group(Ref::Front(0))];
     let pre_steps = prog_steps(&prefix);
 
     // (1) corpus / design witnesses: sequential re-collection, ancestors after descendants, siblings
@@ -580,7 +875,7 @@ pub fn run(cx: &mut Ctx) {
         let p0 = vec![
             src(&base), Op::Derive(Ref::Front(0), F::Mul(2)), Op::Collect(Ref::Front(0), None),
             Op::Derive(Ref::Front(0), F::Drop(2, 0)), Op::Collect(Ref::Front(0), Some(2)), Op::Collect(Ref::Front(1), None),
-            Op::Join(Ref::Front(1), Ref::Front(2)), Op::Collect(Ref::Back(0), None), Op::Collect(Ref::Front(0), None),
+            Op::Join(JK::Inner, Ref::Front(1), Ref::Front(2)), Op::Collect(Ref::Back(0), None), Op::Collect(Ref::Front(0), None),
             Op::Collect(Ref::Back(0), Some(3)), Op::Source(vec![(0, 9)]), Op::Collect(Ref::Front(2), None),
         ];
         let plan = vec![0; prog_steps(&p0)];
@@ -592,23 +887,83 @@ pub fn run(cx: &mut Ctx) {
         for _ in 0..8 { plan.push(1); plan.push(2); }
         one_scheduled(cx, &[prefix.clone(), a, b], &plan, "corpus");
         // empty source, join with itself
-        let p1 = vec![Op::Source(vec![]), Op::Join(Ref::Front(0), Ref::Front(0)), Op::Collect(Ref::Back(0), None), Op::Collect(Ref::Front(0), None)];
+        let p1 = vec![Op::Source(vec![]), Op::Join(JK::Inner, Ref::Front(0), Ref::Front(0)), Op::Collect(Ref::Back(0), None), Op::Collect(Ref::Front(0), None)];
         let plan = vec![0; prog_steps(&p1)];
         one_scheduled(cx, &[p1], &plan, "corpus");
+        // barriers in the middle of lineages: sibling per-key / global / lifted combines of one source, each
+        // collected in both modes, interleaved with collects of the ancestors; the four join kinds over
+        // lineages that contain barriers; everything collected twice
+        let p2 = vec![
+            src(&[(0, 1), (1, 2), (0, 3), (2, 5)]), Op::CombV(Ref::Front(0), 1), Op::CombV(Ref::Front(0), 2),
+            Op::Collect(Ref::Front(1), None), Op::Collect(Ref::Front(2), Some(2)), Op::Collect(Ref::Front(1), Some(3)),
+            Op::Group(Ref::Front(0)), Op::CombL(Ref::Back(0), 5), Op::Collect(Ref::Back(0), None), Op::Collect(Ref::Back(1), Some(2)),
+            Op::CombG(Ref::Front(1), 7, Some(2)), Op::Collect(Ref::Back(0), Some(4)), Op::Collect(Ref::Front(2), None),
+            Op::Derive(Ref::Back(0), F::Mul(3)), Op::Source(vec![(1, 10), (3, 30)]),
+            Op::Join(JK::Left, Ref::Front(1), Ref::Back(0)), Op::Join(JK::Right, Ref::Front(2), Ref::Back(0)),
+            Op::Join(JK::Full, Ref::Back(1), Ref::Back(0)), Op::Join(JK::Inner, Ref::Front(1), Ref::Front(2)),
+            Op::Collect(Ref::Back(0), None), Op::Collect(Ref::Back(1), Some(2)), Op::Collect(Ref::Back(2), None), Op::Collect(Ref::Back(3), Some(3)),
+            Op::Derive(Ref::Back(1), F::Rekey(2)), Op::Collect(Ref::Back(0), None), Op::Collect(Ref::Back(2), None),
+            Op::Collect(Ref::Front(1), None), Op::Collect(Ref::Front(0), Some(2)),
+        ];
+        let plan = vec![0; prog_steps(&p2)];
+        one_scheduled(cx, &[p2], &plan, "corpus");
+        // joins whose operands' lineages contain group_by_key + lifted combine / a global combine (the captured
+        // sub-chains run without the planner's lifting pass), in both modes, twice
+        let p2 = vec![
+            src(&[(0, 1), (1, 2), (0, 3), (2, 5)]), Op::Group(Ref::Front(0)), Op::CombL(Ref::Back(0), 1),
+            Op::CombG(Ref::Front(0), 2, Some(2)), Op::Derive(Ref::Front(1), F::Rekey(1)), Op::CombL(Ref::Back(0), 4),
+            Op::Join(JK::Left, Ref::Front(1), Ref::Front(2)), Op::Join(JK::Full, Ref::Front(2), Ref::Back(0)),
+            Op::Join(JK::Right, Ref::Back(0), Ref::Front(1)), Op::Join(JK::Inner, Ref::Front(0), Ref::Front(1)),
+            Op::Collect(Ref::Back(0), None), Op::Collect(Ref::Back(1), Some(2)), Op::Collect(Ref::Back(2), None), Op::Collect(Ref::Back(3), Some(3)),
+            Op::Collect(Ref::Back(3), None), Op::Collect(Ref::Back(2), Some(2)), Op::Collect(Ref::Back(4), None), Op::Collect(Ref::Back(4), Some(2)),
+            Op::Collect(Ref::Front(2), None), Op::Collect(Ref::Front(3), None), Op::Collect(Ref::Front(2), Some(2)),
+        ];
+        let plan = vec![0; prog_steps(&p2)];
+        one_scheduled(cx, &[p2], &plan, "corpus");
+        // the four join kinds with repeated unmatched keys on both sides, each collected in both modes
+        let p3 = vec![
+            src(&[(0, 1), (0, 2), (1, 3), (1, 4), (2, 5)]), src(&[(1, 10), (1, 11), (3, 30), (3, 31), (2, 20)]),
+            Op::Join(JK::Inner, Ref::Front(0), Ref::Front(1)), Op::Join(JK::Left, Ref::Front(0), Ref::Front(1)),
+            Op::Join(JK::Right, Ref::Front(0), Ref::Front(1)), Op::Join(JK::Full, Ref::Front(0), Ref::Front(1)),
+            Op::Collect(Ref::Front(2), None), Op::Collect(Ref::Front(3), None), Op::Collect(Ref::Front(4), None), Op::Collect(Ref::Front(5), None),
+            Op::Collect(Ref::Front(2), Some(2)), Op::Collect(Ref::Front(3), Some(3)), Op::Collect(Ref::Front(4), Some(2)), Op::Collect(Ref::Front(5), Some(4)),
+            Op::Derive(Ref::Front(4), F::Add(1)), Op::Derive(Ref::Front(5), F::Drop(2, 0)), Op::Collect(Ref::Back(0), None), Op::Collect(Ref::Back(1), None),
+        ];
+        let plan = vec![0; prog_steps(&p3)];
+        one_scheduled(cx, &[p3], &plan, "corpus");
+        // set/take_metrics racing a collect, strictly alternating, then the other way round
+        let a = vec![Op::SetM, Op::Collect(Ref::Front(1), None), Op::TakeM, Op::TakeM];
+        let b = vec![Op::Collect(Ref::Front(0), Some(2)), Op::SetM, Op::Collect(Ref::Front(2), None)];
+        for first in [1usize, 2] {
+            let mut plan = vec![0; pre_steps];
+            for _ in 0..12 { plan.push(first); plan.push(3 - first); }
+            one_scheduled(cx, &[prefix.clone(), a.clone(), b.clone()], &plan, "corpus");
+        }
     }
 
-    // (2) exhaustive small scope: for every ordered pair of single operations from a 7-letter alphabet
-    //     (thread 1 runs the first, thread 2 the second, after a 2-operation prefix), ALL interleavings of
-    //     their atomic steps; then selected multi-operation pairs, all interleavings (up to a cap).
-    let alpha: Vec<Op> = vec![
+    // (2a) exhaustive small scope: for every ordered pair of single operations from the alphabet (thread 1
+    //      runs the first, thread 2 the second, after the 3-operation prefix), ALL interleavings of their
+    //      atomic steps (no reduction).
+    let mut alpha: Vec<Op> = vec![
         Op::Source(vec![(0, 7), (1, 8)]),
         Op::Derive(Ref::Front(0), F::Mul(2)),
-        Op::Derive(Ref::Back(0), F::Drop(2, 0)),
-        Op::Join(Ref::Front(0), Ref::Back(0)),
+        Op::Group(Ref::Front(1)),
+        Op::CombV(Ref::Front(0), 1),
+        Op::CombL(Ref::Back(0), 2),
+        Op::CombG(Ref::Back(1), 3, Some(2)),
+        Op::Join(JK::Inner, Ref::Front(0), Ref::Back(0)),
+        Op::Join(JK::Full, Ref::Back(0), Ref::Front(0)),
         Op::Collect(Ref::Front(0), None),
-        Op::Collect(Ref::Back(0), None),
         Op::Collect(Ref::Back(0), Some(2)),
+        Op::SetM,
+        Op::TakeM,
     ];
+    if deep {
+        alpha.extend([
+            Op::Join(JK::Left, Ref::Front(1), Ref::Back(0)),
+            Op::Join(JK::Right, Ref::Back(0), Ref::Back(1)),
+        ]);
+    }
     let mut n_sched = 0usize;
     for a in &alpha {
         for b in &alpha {
@@ -619,18 +974,56 @@ pub fn run(cx: &mut Ctx) {
         }
     }
     cx.exhaustive_blocks.push(format!(
-        "2 worker threads x 1 operation each: all {} ordered pairs over a 7-operation alphabet (source, 2 derives, join, 3 collects) after a 2-operation prefix, ALL interleavings of their lock-granular steps ({n_sched} schedules)",
-        alpha.len() * alpha.len()));
+        "2 worker threads x 1 operation each: all {} ordered pairs over a {}-operation alphabet ({}) after a 3-operation prefix (source, map, group_by_key), ALL interleavings of their lock-granular steps ({n_sched} schedules)",
+        alpha.len() * alpha.len(), alpha.len(), alpha.iter().map(enc_op).collect::<Vec<_>>().join(" ")));
+
+    // (2b) 2 worker threads x up to 3 operations each (quick tier: up to 2): for EVERY ordered pair of programs
+    //      over a per-thread alphabet, one schedule of EVERY Mazurkiewicz trace (every interleaving is
+    //      equivalent, by swapping adjacent independent steps — see `dependent` — to exactly one of them).
+    let max_ops = if deep { 3 } else { 2 };
+    let configs: Vec<(&str, Vec<Op>, Vec<Op>, usize)> = vec![
+        ("sibling barrier vs chain", vec![Op::CombV(Ref::Front(0), 1), Op::Collect(Ref::Mine(0), None)],
+            vec![Op::Derive(Ref::Mine(0), F::Add(2)), Op::Collect(Ref::Mine(0), Some(2))], max_ops),
+        ("group vs global combine", vec![Op::Group(Ref::Front(0)), Op::Collect(Ref::Back(0), None)],
+            vec![Op::CombG(Ref::Front(1), 2, Some(2)), Op::Collect(Ref::Front(0), None)], max_ops),
+        ("lifted combine vs per-key combine", vec![Op::CombL(Ref::Front(0), 1), Op::Collect(Ref::Mine(0), Some(3))],
+            vec![Op::CombV(Ref::Back(0), 2), Op::Collect(Ref::Back(0), None)], 2),
+        ("metrics vs collect", vec![Op::SetM, Op::TakeM, Op::Collect(Ref::Front(1), None)],
+            vec![Op::Collect(Ref::Front(0), Some(2)), Op::TakeM], max_ops),
+        ("join vs join", vec![Op::Join(JK::Left, Ref::Front(0), Ref::Mine(0)), Op::Collect(Ref::Mine(0), None)],
+            vec![Op::Join(JK::Full, Ref::Mine(0), Ref::Front(1)), Op::Collect(Ref::Back(0), None)], if deep { 2 } else { 1 }),
+        ("join over barriers vs chain", vec![Op::Join(JK::Right, Ref::Front(1), Ref::Front(0)), Op::CombV(Ref::Front(1), 1), Op::Collect(Ref::Mine(0), None)],
+            vec![Op::Derive(Ref::Mine(0), F::Mul(2)), Op::Collect(Ref::Back(0), None)], if deep { 2 } else { 1 }),
+    ];
+    for (name, al1, al2, max) in &configs {
+        let (p1s, p2s) = (programs(al1, *max), programs(al2, *max));
+        let (mut n_tr, mut n_full) = (0usize, 0u128);
+        for p1 in &p1s {
+            for p2 in &p2s {
+                let (k1, k2) = (prog_kinds(p1), prog_kinds(p2));
+                n_full += binom(k1.len() + k2.len(), k1.len()) as u128;
+                for plan in trace_representatives(pre_steps, &k1, &k2) {
+                    one_scheduled(cx, &[prefix.clone(), p1.clone(), p2.clone()], &plan, "exhaustive-2xN");
+                    n_tr += 1;
+                }
+            }
+        }
+        cx.exhaustive_blocks.push(format!(
+            "2 worker threads x 1..{max} operations each ({name}): thread 1 over {{{}}}, thread 2 over {{{}}}, all {} ordered pairs of programs, one schedule per Mazurkiewicz trace = every interleaving up to swaps of independent steps ({n_tr} schedules standing for {n_full} interleavings)",
+            al1.iter().map(enc_op).collect::<Vec<_>>().join(" "), al2.iter().map(enc_op).collect::<Vec<_>>().join(" "), p1s.len() * p2s.len()));
+    }
+
+    // (2c) selected multi-operation pairs, all interleavings (up to a cap), no reduction
     let multi: Vec<(Vec<Op>, Vec<Op>)> = vec![
         (vec![Op::Derive(Ref::Front(0), F::Mul(2)), Op::Collect(Ref::Mine(0), None)], vec![Op::Derive(Ref::Back(0), F::Add(5))]),
         (vec![Op::Derive(Ref::Front(0), F::Mul(2)), Op::Collect(Ref::Front(0), None)], vec![Op::Collect(Ref::Front(0), Some(2))]),
-        (vec![Op::Join(Ref::Front(0), Ref::Front(1)), Op::Collect(Ref::Mine(0), None)], vec![Op::Derive(Ref::Front(1), F::Rekey(2))]),
+        (vec![Op::Join(JK::Inner, Ref::Front(0), Ref::Front(1)), Op::Collect(Ref::Mine(0), None)], vec![Op::Derive(Ref::Front(1), F::Rekey(2))]),
         (vec![Op::Source(vec![(1, 1)]), Op::Collect(Ref::Back(0), None)], vec![Op::Derive(Ref::Back(0), F::Drop(2, 1)), Op::Collect(Ref::Mine(0), None)]),
         (vec![Op::Derive(Ref::Front(0), F::Add(2)), Op::Derive(Ref::Mine(0), F::Mul(3)), Op::Collect(Ref::Mine(1), None)], vec![Op::Collect(Ref::Back(0), None)]),
-        (vec![Op::Join(Ref::Front(0), Ref::Back(0))], vec![Op::Join(Ref::Back(0), Ref::Front(0))]),
-        (vec![Op::Derive(Ref::Front(0), F::Mul(2)), Op::Collect(Ref::Mine(0), None)], vec![Op::Derive(Ref::Front(0), F::Add(3)), Op::Collect(Ref::Mine(0), None)]),
-        (vec![Op::Derive(Ref::Front(0), F::Mul(2)), Op::Derive(Ref::Mine(0), F::Add(1)), Op::Collect(Ref::Mine(0), None)],
-         vec![Op::Derive(Ref::Back(0), F::Add(3)), Op::Join(Ref::Front(0), Ref::Mine(0)), Op::Collect(Ref::Front(1), None)]),
+        (vec![Op::Join(JK::Left, Ref::Front(0), Ref::Back(0))], vec![Op::Join(JK::Right, Ref::Back(0), Ref::Front(0))]),
+        (vec![Op::CombV(Ref::Front(0), 2), Op::Collect(Ref::Mine(0), None)], vec![Op::CombG(Ref::Front(0), 3, None), Op::Collect(Ref::Mine(0), None)]),
+        (vec![Op::Derive(Ref::Front(0), F::Mul(2)), Op::CombV(Ref::Mine(0), 1), Op::Collect(Ref::Mine(0), None)],
+         vec![Op::Derive(Ref::Back(0), F::Add(3)), Op::Join(JK::Full, Ref::Front(0), Ref::Mine(0)), Op::Collect(Ref::Front(1), None)]),
     ];
     let cap = cx.budget(400, 4000);
     let mut n_multi = 0usize;
@@ -660,11 +1053,12 @@ pub fn run(cx: &mut Ctx) {
         multi.len()));
 
     // (3) random: 2..4 worker threads x <= 6 operations, random schedules with varying burstiness
-    let rounds = cx.budget(400, 16000);
+    let rounds = cx.budget(400, 8000);
     for _ in 0..rounds {
         let workers = 2 + cx.rng.below(3);
         let mut progs = vec![];
         let mut pre = vec![Op::Source(gen_rows(cx))];
+        if cx.rng.chance(1, 3) { pre.push(Op::SetM); }
         for _ in 0..cx.rng.below(3) { pre.push(gen_op(cx)); }
         progs.push(pre);
         for _ in 0..workers {
@@ -700,11 +1094,16 @@ pub fn run(cx: &mut Ctx) {
             let mut p = vec![Op::Source(gen_rows(cx))];
             let len = if r % 3 == 0 { 40 } else { 6 + cx.rng.below(10) };
             for _ in 0..len {
-                p.push(match cx.rng.below(8) {
-                    0 => Op::Source(gen_rows(cx)),
-                    1..=4 => Op::Derive(gen_ref(cx), F::Add(cx.rng.range(-2, 2))),
-                    5 => Op::Join(gen_ref(cx), gen_ref(cx)),
-                    _ => Op::Collect(gen_ref(cx), None),
+                p.push(match cx.rng.below(16) {
+                    0 | 1 => Op::Source(gen_rows(cx)),
+                    2..=6 => Op::Derive(gen_ref(cx), F::Add(cx.rng.range(-2, 2))),
+                    7 => Op::Group(gen_ref(cx)),
+                    8 => Op::CombV(gen_ref(cx), cx.rng.range(-1, 1)),
+                    9 => Op::CombL(gen_ref(cx), cx.rng.range(-1, 1)),
+                    10 => { let r = gen_ref(cx); Op::CombG(r, 1, *cx.rng.pick(&[None, Some(2)])) }
+                    11 | 12 => { let k = gen_jk(cx); Op::Join(k, gen_ref(cx), gen_ref(cx)) }
+                    13 => if cx.rng.chance(1, 2) { Op::SetM } else { Op::TakeM },
+                    _ => { let r = gen_ref(cx); let m = if cx.rng.chance(1, 4) { Some(2) } else { None }; Op::Collect(r, m) }
                 });
             }
             progs.push(p);
@@ -712,4 +1111,5 @@ pub fn run(cx: &mut Ctx) {
         one_free(cx, &progs);
     }
     cx.notes.push("free-running cases are truly concurrent: their request lines (the snapshot) depend on the OS schedule, their verdicts do not".into());
+    cx.notes.push("block 2b relies on the stated dependence relation between lock sites (which fields a critical section reads/writes); blocks 2a/2c/3 do not".into());
 }
